@@ -9,7 +9,8 @@
               writes ((key val) ...)  its net changes
      sched  ((worker label) ...)      label 0 = Claim, 1 = Finish
      bal    (((key ((idx val) ...)) ...) (readkey ...))   the block's access list, flattened
-     muts   ((adjusted bal) ...)      mutated lists; adjusted = header hash follows the list
+     muts   ((adj bal) ...)   mutated lists; adj 0: body only, 1: the header's access-list hash follows
+                              the list, 2: hash and state root follow it
 
    A phase is replayed as the table transaction "if the view agrees with [dep] then the
    recorded effects, else a consensus error".
@@ -72,9 +73,9 @@ Definition dec_sched (s : sx) : option (nat * wlabel) :=
   | SL [w; SI 1%Z] => option_map (fun n => (n, Finish)) (sx_nat w)
   | _ => None
   end.
-Definition dec_mut (s : sx) : option (bool * bal bkey bkey) :=
+Definition dec_mut (s : sx) : option (N * bal bkey bkey) :=
   match s with
-  | SL [a; b] => match sx_bool a, dec_bal b with Some x, Some y => Some (x, y) | _, _ => None end
+  | SL [a; b] => match sx_N a, dec_bal b with Some x, Some y => Some (x, y) | _, _ => None end
   | _ => None
   end.
 
@@ -162,16 +163,17 @@ Definition C33_run (c : sx) : sx :=
                             let hd := header_of bkey bkey bkey digest bytes_ltb DBal DRec DReq
                                                 (root_on keys) rs in
                             let postv := map (snd rs) keys in
-                            map (fun am : bool * bal bkey bkey =>
+                            map (fun am : N * bal bkey bkey =>
                               let (adj, m) := am in
                               if negb (bal_validate bkey bkey bytes_eqb bytes_ltb
                                          (N.of_nat (length txs) + 1) m)
                               then SL [SI 0]
                               else
-                                let hd' := if adj
-                                           then Build_header digest (h_gas _ hd) (h_rec _ hd) (h_req _ hd)
-                                                             (DBal m) (h_root _ hd)
-                                           else hd in
+                                let hd' :=
+                                  if (adj =? 0)%N then hd
+                                  else Build_header digest (h_gas _ hd) (h_rec _ hd) (h_req _ hd) (DBal m)
+                                         (if (adj =? 1)%N then h_root _ hd
+                                          else root_on keys (apply_bal bkey bkey bytes_eqb prev m)) in
                                 let aff := first_aff prev m stl 0 in
                                 let cls :=
                                   match outcome m with
